@@ -71,6 +71,16 @@ CLAIMED["C06"] = dict(
     technique="contract-based verification of frame / effect / order-qualifier obligations per function by AST dataflow analysis; bounded native validation of assumed purity",
     design="DESIGN.md §3 C06")
 
+CLAIMED["C17"] = dict(
+    text="Coupling-invariant proof over all event sequences: each html.parser callback of the two real state machines (HTML tree builder, "
+         "EPUB XHTML extractor) preserves the invariant between its fields and the spec region (None | (tag, depth)) written from the "
+         "statement, for every tag string; hidden data and comments are never stored, visible data is always stored in exactly one place; "
+         "reuse sites (mhtml, msg) and tag tables as ground obligations.",
+    note="Assumed: html.parser's event contract (tokenisation); str.lower uninterpreted; the walker emitting every stored text is C02's; "
+         "call-site obligations are syntactic (UNDECIDED when the shape is not recognised).",
+    technique="contract-based deductive verification: coupling invariant per handler over the real AST, z3",
+    design="DESIGN.md §3 C17")
+
 PENDING = {}
 
 ALL = [f"C{i:02d}" for i in range(1, 21)]
